@@ -211,12 +211,13 @@ func Harness_C17_mercury() {
 	}
 	hasMercury := vr.Bool("alert.has_mercury")
 	created, updated := vr.U64("mercury.created_at"), vr.U64("mercury.updated_at")
-	vr.Assume(created < 1<<62 && updated < 1<<62)
+	vr.Assume(created < 253402300800 && updated < 253402300800) // years up to 9999: beyond that json.Marshal of a time fails
 	display := vr.U64("mercury.display_before_active")
 	vr.Assume(display < 1<<31)
 	period := vr.Str("mercury.period")
 	if hasMercury {
-		ma := &gtfsrt.MercuryAlert{CreatedAt: &created, UpdatedAt: &updated, DisplayBeforeActive: &display}
+		alertType := "Planned Work"
+		ma := &gtfsrt.MercuryAlert{CreatedAt: &created, UpdatedAt: &updated, DisplayBeforeActive: &display, AlertType: &alertType}
 		if vr.Bool("mercury.has_period") {
 			ma.HumanReadableActivePeriod = &gtfsrt.TranslatedString{Translation: []*gtfsrt.TranslatedString_Translation{{Text: &period}}}
 		} else {
@@ -307,4 +308,3 @@ func Harness_C17_passthrough() {
 	}
 	vr.Assert("C17.passthrough", vr.And(vr.DeepEq(with.Alerts, without.Alerts), vr.DeepEq(with.Trips, without.Trips), vr.DeepEq(with.Vehicles, without.Vehicles)))
 }
-
